@@ -18,6 +18,7 @@ import (
 	crand "crypto/rand"
 	"crypto/sha256"
 	stdx509 "crypto/x509"
+	"encoding/pem"
 	"errors"
 	"fmt"
 	"net/http"
@@ -81,6 +82,9 @@ type v6Sub struct {
 	viaInt    bool
 	serial    int64
 	otherPath bool     // resubmitted through the other intermediate certificate
+	preIssuer bool     // [precert, Precertificate Signing Certificate, CA]
+	ikh       [32]byte // independently derived issuer key hash (precert entries)
+	tbs       []byte
 	twin      bool     // a precertificate with the same TBS as an earlier one, other signature bytes
 	wantExtra []byte   // expected stored extra data (validated path: submitted intermediates + root)
 	stored    [][]byte // expected stored chain after the leaf
@@ -94,20 +98,21 @@ type v6STH struct {
 }
 
 type v6Env struct {
-	t       *testing.T
-	out     *verifkit.Out
-	r       *verifkit.Rand
-	name    string
-	pki     *verifkit.MiniPKI
-	backend *verifkit.RefLog
-	clock   *v6Clock
-	lc      *client.LogClient
-	linfo   *ctutil.LogInfo
-	subs    []*v6Sub
-	sths    []v6STH
-	serial  int64
-	tsNanos uint64
-	nOps    int
+	t            *testing.T
+	out          *verifkit.Out
+	r            *verifkit.Rand
+	name         string
+	pki          *verifkit.MiniPKI
+	backend      *verifkit.RefLog
+	clock        *v6Clock
+	lc           *client.LogClient
+	linfo        *ctutil.LogInfo
+	subs         []*v6Sub
+	preIssuerSub *v6Sub
+	sths         []v6STH
+	serial       int64
+	tsNanos      uint64
+	nOps         int
 }
 
 func newV6Env(t *testing.T, out *verifkit.Out, r *verifkit.Rand, name string) *v6Env {
@@ -129,6 +134,7 @@ func newV6Env(t *testing.T, out *verifkit.Out, r *verifkit.Rand, name string) *v
 	if !pool.AppendCertsFromPEM([]byte(e.pki.RootPEM())) {
 		t.Fatal("cannot load the root")
 	}
+	pool.AppendCertsFromPEM(pem.EncodeToMemory(&pem.Block{Type: "CERTIFICATE", Bytes: verifkit.PreIssuerChain()[2]}))
 	li := vLogInfo(e.backend, key, e.clock, nil, func(_ *InstanceOptions, v *CertValidationOpts) { v.trustedRoots = pool })
 	hc := &http.Client{Transport: v6Transport{h: li.Handlers("test")}}
 	e.lc, err = client.New("https://log.example/test", hc, jsonclient.Options{PublicKeyDER: pubDER})
@@ -179,8 +185,11 @@ func (e *v6Env) prepare(again *v6Sub, forcePrecert bool) *v6Sub {
 		leaf := e.pki.Issue(e.serial, s.precert, s.viaInt)
 		e.finishChain(s, leaf)
 	} else {
-		s = &v6Sub{precert: again.precert, idHash: again.idHash, stored: again.stored, viaInt: again.viaInt, serial: again.serial}
+		s = &v6Sub{precert: again.precert, idHash: again.idHash, stored: again.stored, viaInt: again.viaInt, serial: again.serial, preIssuer: again.preIssuer}
 		s.chainDER = append([][]byte(nil), again.chainDER...)
+		if again.preIssuer {
+			return s // the three-certificate chain is resubmitted as it is
+		}
 		// the same certificate with or without the root appended
 		if bytes.Equal(s.chainDER[len(s.chainDER)-1], e.pki.RootDER) {
 			if e.r.Bool() && !(s.precert && len(s.chainDER) == 2) {
@@ -230,13 +239,35 @@ func (e *v6Env) subOp(s *v6Sub, key string, nowMillis uint64) string {
 	s.wantExtra, _ = util.ExtraDataForChain(ct.ASN1Cert{Data: s.chainDER[0]}, v6ASN1(s.stored), s.precert)
 	if s.precert {
 		pe := candLeaf.TimestampedEntry.PrecertEntry
-		ikh := sha256.Sum256(path[1].RawSubjectPublicKeyInfo)
-		if ikh != pe.IssuerKeyHash {
-			e.out.Fail(key, "issuer key hash of the precert leaf is not SHA-256 of the issuer's SubjectPublicKeyInfo")
+		// issuer_key_hash derived INDEPENDENTLY of the repository's leaf builder: SHA-256 of the SubjectPublicKeyInfo of the CA that
+		// will issue the final certificate — chain[1], or chain[2] when chain[1] is a Precertificate Signing Certificate (CT EKU).
+		// Only the TBSCertificate (DER rewriting, C03's subject) is taken from the repo's builder.
+		final := path[1]
+		if s.preIssuer {
+			final = path[2]
 		}
-		return fmt.Sprintf("subp %s %d %s %s %s", verifkit.Hex(s.idHash[:]), nowMillis, verifkit.Hex(pe.IssuerKeyHash[:]), verifkit.Hex(pe.TBSCertificate), verifkit.Hex(s.wantExtra))
+		s.ikh = sha256.Sum256(final.RawSubjectPublicKeyInfo)
+		s.tbs = pe.TBSCertificate
+		return fmt.Sprintf("subp %s %d %s %s %s", verifkit.Hex(s.idHash[:]), nowMillis, verifkit.Hex(s.ikh[:]), verifkit.Hex(pe.TBSCertificate), verifkit.Hex(s.wantExtra))
 	}
 	return fmt.Sprintf("subx %s %d %s %s", verifkit.Hex(s.idHash[:]), nowMillis, verifkit.Hex(s.chainDER[0]), verifkit.Hex(s.wantExtra))
+}
+
+// indepLeafHash: the leaf hash a client derives for a precertificate entry from the RFC 6962 layout, the SCT timestamp, the
+// final issuer's key hash and the TBSCertificate — without the repository's MerkleTreeLeafFromChain.
+func indepLeafHash(s *v6Sub, ts uint64) [32]byte {
+	var b []byte
+	b = append(b, 0, 0) // version v1, leaf_type timestamped_entry
+	for i := 7; i >= 0; i-- {
+		b = append(b, byte(ts>>(8*uint(i))))
+	}
+	b = append(b, 0, 1) // precert_entry
+	b = append(b, s.ikh[:]...)
+	n := len(s.tbs)
+	b = append(b, byte(n>>16), byte(n>>8), byte(n))
+	b = append(b, s.tbs...)
+	b = append(b, 0, 0) // no extensions
+	return sha256.Sum256(append([]byte{0}, b...))
 }
 
 func (e *v6Env) clientChain(s *v6Sub) []*x509.Certificate {
@@ -305,6 +336,12 @@ func (e *v6Env) submitPrepared(s *v6Sub, again *v6Sub, advance bool, tag string)
 		return
 	}
 	s.leafHash = lh
+	if s.precert {
+		if ih := indepLeafHash(s, sct.Timestamp); ih != lh {
+			e.out.Fail(key, fmt.Sprintf("sct_findable: the leaf a client derives from the final issuer (issuer_key_hash = SHA-256(SPKI of the final CA) = %x) and the SCT hashes to %x, the repository's builder gives %x", s.ikh[:8], ih[:8], lh[:8]))
+			s.leafHash = ih // the client-side hash is the independent one
+		}
+	}
 	dup := "new"
 	if int(e.backend.Size())+e.backend.Pending() == before {
 		dup = "dup"
@@ -332,6 +369,20 @@ func (e *v6Env) submitPrepared(s *v6Sub, again *v6Sub, advance bool, tag string)
 	}
 	if again == nil {
 		e.subs = append(e.subs, s)
+	}
+}
+
+// preIssuerSubmit: add-pre-chain of [precertificate, Precertificate Signing Certificate (CT EKU), CA] (verifkit.PreIssuerChain).
+func (e *v6Env) preIssuerSubmit() {
+	ch := verifkit.PreIssuerChain()
+	s := &v6Sub{precert: true, preIssuer: true, viaInt: true, chainDER: ch, stored: ch[1:], idHash: sha256.Sum256(ch[0])}
+	if e.preIssuerSub != nil {
+		e.submitPrepared(s, e.preIssuerSub, true, "pre-issuer")
+		return
+	}
+	e.submitPrepared(s, nil, true, "pre-issuer")
+	if s.sct != nil {
+		e.preIssuerSub = s
 	}
 }
 
@@ -643,7 +694,11 @@ func (e *v6Env) entries() {
 func (e *v6Env) roots() {
 	key := e.key("get-roots")
 	rs, err := e.lc.GetAcceptedRoots(context.Background())
-	if err != nil || len(rs) != 1 || !bytes.Equal(rs[0].Data, e.pki.RootDER) {
+	ok := len(rs) == 2
+	for _, r := range rs {
+		ok = ok && (bytes.Equal(r.Data, e.pki.RootDER) || bytes.Equal(r.Data, verifkit.PreIssuerChain()[2]))
+	}
+	if err != nil || !ok {
 		e.out.Fail(key, fmt.Sprintf("get-roots: %v (%d roots)", err, len(rs)))
 	}
 	e.out.Count("class:get-roots")
@@ -667,8 +722,10 @@ func (e *v6Env) step() {
 		} else {
 			e.submit(nil)
 		}
-	case x < 46:
+	case x < 45:
 		e.sameMillisecond()
+	case x < 46:
+		e.preIssuerSubmit()
 	case x < 48:
 		e.concurrentSubmit(3 + e.r.Intn(6))
 	case x < 58:
@@ -1018,6 +1075,22 @@ func v6ExternalStorageRestart(t *testing.T, out *verifkit.Out, r *verifkit.Rand,
 			out.Fail(k, "sct_findable: the stored entry does not decode to the submitted certificate and chain")
 		}
 		out.Count("class:external-storage-read-after-restart")
+		// the same entry through get-entry-and-proof: identical leaf_input and extra_data (the full chain, not its hash form), path verifies
+		raw, rerr := b.GetRawEntries(ctx, rsp.LeafIndex, rsp.LeafIndex)
+		eap, eerr := b.GetEntryAndProof(ctx, uint64(rsp.LeafIndex), sth.TreeSize)
+		k2 := fmt.Sprintf("%s external-storage get-entry-and-proof cert%d index=%d size=%d", name, i, rsp.LeafIndex, sth.TreeSize)
+		if rerr != nil || eerr != nil || len(raw.Entries) != 1 {
+			out.Fail(k2, fmt.Sprintf("get-entries: %v, get-entry-and-proof: %v", rerr, eerr))
+			continue
+		}
+		if !bytes.Equal(eap.LeafInput, raw.Entries[0].LeafInput) || !bytes.Equal(eap.ExtraData, raw.Entries[0].ExtraData) {
+			out.Fail(k2, fmt.Sprintf("the entry served by get-entry-and-proof differs from the one served by get-entries for the same index: extra_data %d bytes (%x…) vs %d bytes — it does not decode to the submitted chain",
+				len(eap.ExtraData), eap.ExtraData[:min(12, len(eap.ExtraData))], len(raw.Entries[0].ExtraData)))
+		}
+		if verr := proof.VerifyInclusion(rfc6962.DefaultHasher, uint64(rsp.LeafIndex), sth.TreeSize, rfc6962.DefaultHasher.HashLeaf(eap.LeafInput), eap.AuditPath, sth.SHA256RootHash[:]); verr != nil {
+			out.Fail(k2, "inclusion_ok: audit path of get-entry-and-proof does not verify: "+verr.Error())
+		}
+		out.Count("class:external-storage-get-entry-and-proof")
 	}
 }
 
@@ -1036,6 +1109,9 @@ func TestVerifC06(t *testing.T) {
 			e.step()
 			if i == nOps/2 {
 				e.concurrent(8, verifkit.N(25, 60))
+			}
+			if i == nOps/5 {
+				e.preIssuerSubmit()
 			}
 			if i == nOps/3 || i == 2*nOps/3 {
 				for j := 0; j < 12; j++ { // leaves to sequence one at a time during the hammer
